@@ -56,6 +56,18 @@ int w_canonize(int64_t *offset, int64_t *length, int64_t clen)
     *length = spec.length;
     return r;
 }
+void w_isect64(int64_t a, int64_t b, int64_t c, int64_t d, int64_t *s, int64_t *e)
+{
+    HttpHdrRangeSpec::HttpRange x(a, b), y(c, d);
+    HttpHdrRangeSpec::HttpRange r = x.intersection(y);
+    *s = r.start;
+    *e = r.end;
+}
+uint64_t w_size64(int64_t a, int64_t b)
+{
+    HttpHdrRangeSpec::HttpRange x(a, b);
+    return x.size();
+}
 int w_merge(int64_t *o1, int64_t *l1, int64_t *o2, int64_t *l2)
 {
     HttpHdrRangeSpec a, b;
